@@ -298,6 +298,32 @@ func ruleStateCoverage(c *Ctx, r *Report) {
 	if fn := c.need(r, rule, "(*dtls.State).generateInternalState"); fn != nil {
 		r.Sites += len(fn.Blocks)
 		loaded := fieldsLoadedFrom(fn, fn.Params[0])
+		// the import may be cut into methods of the State that the importer calls on itself
+		importUnit := []*ssa.Function{fn}
+		for _, g := range c.unitFuncs(fn) {
+			if g == fn || g.Signature.Recv() == nil || len(g.Params) == 0 {
+				continue
+			}
+			onSelf := false
+			for _, u := range c.unitFuncs(fn) {
+				for _, call := range findCalls(u, nameIs(short(g))) {
+					if p, isP := call.Call.Args[0].(*ssa.Parameter); isP && namedOf(derefType(p.Type())) == "dtls.State" {
+						onSelf = true
+					}
+				}
+			}
+			if !onSelf || namedOf(derefType(g.Params[0].Type())) != "dtls.State" {
+				continue
+			}
+			importUnit = append(importUnit, g)
+			for f, us := range fieldsLoadedFrom(g, g.Params[0]) {
+				loaded[f] = append(loaded[f], us...)
+			}
+		}
+		inImport := map[*ssa.Function]bool{}
+		for _, g := range importUnit {
+			inImport[g] = true
+		}
 		for _, f := range stFields {
 			if only13[f] {
 				continue
@@ -325,13 +351,17 @@ func ruleStateCoverage(c *Ctx, r *Report) {
 		// the master secret lands in State12.MasterSecret
 		okMS := false
 		for _, st := range c.StoresTo(tSt12, "MasterSecret") {
-			if st.Fn == fn && allLeaves(c.Origins(st.Val, 0), func(v ssa.Value) bool { return isFieldLoad(v, "dtls.State", "masterSecret") }) {
+			if inImport[st.Fn] && allLeaves(c.Origins(st.Val, 0), func(v ssa.Value) bool { return isFieldLoad(v, "dtls.State", "masterSecret") }) {
 				okMS = true
 			}
 		}
 		r.Check(okMS, "exporter-secret", short(fn), c.pos(fn.Pos()), "resumed State12.MasterSecret = State.masterSecret", "the resumed connection's master secret is not restored from the serialised state: its exporter is keyed by nothing")
 		// counter restored at the index of the serialised epoch
-		for _, b := range fn.Blocks {
+		var importBlocks []*ssa.BasicBlock
+		for _, g := range importUnit {
+			importBlocks = append(importBlocks, g.Blocks...)
+		}
+		for _, b := range importBlocks {
 			for _, in := range b.Instrs {
 				call, ok := in.(*ssa.Call)
 				if !ok || calleeName(&call.Call) != "sync/atomic.StoreUint64" {
@@ -665,7 +695,7 @@ func ruleVersion13Refused(c *Ctx, r *Report) {
 		fl := c.enumConsts(pkgF12, "Flight")
 		for _, role := range []bool{true, false} {
 			rl := role
-			w := &Walk{Fn: fn, Assume: assumeAll(
+			w := &Walk{Fn: fn, Follow: followSamePkgExcept(fn, "restoreReplayWindow"), Assume: assumeAll(
 				atomAssume{mLoad(tCfg, "ResumeState"), vNil(false)},
 				atomAssume{mLoad(tCom, "IsClient"), vBool(rl)},
 			)}
